@@ -80,6 +80,10 @@ def history(rnd, bits, long_filler=True):
 def cases(tier, seed, i, n):
     def allcases():
         rnd = random.Random(seed * 4099 + 6)
+        for prog in ('sender-z-fails||sender-z', 'sender-z-fails||sender-z||sender-z'):
+            yield dict(kind='threads', prog=prog, mode='dfs', max_runs=300 if tier == 'quick' else 3000)
+            for r in range(3 if tier == 'quick' else 100):
+                yield dict(kind='threads', prog=prog, rseed=seed * 311 + r, count=10, prob=(0.05, 0.2, 0.5)[r % 3])
         for j in range(20 if tier == 'quick' else 300):
             yield dict(kind='noneg', hseed=rnd.randrange(1 << 30), offered=bool(j % 2))
             if j % 2 == 0:
@@ -132,7 +136,39 @@ def cases(tier, seed, i, n):
     return gen.shard(allcases(), i, n)
 
 
+def run_threads(case, acc):
+    """compressed sends of several threads, one of which fails: the C11 programs under the controlled scheduler, judged
+    for what C06 says - every message that WAS sent is restored by the peer, over the whole history"""
+    from . import c11
+    from .. import sched
+    prog = c11.PROGRAMS[case['prog']]
+    LOSSY = ('message-missing-or-garbled', 'peer-cannot-inflate-in-wire-order', 'message-duplicated')
+
+    def judge(prog_, out):
+        key, detail, sig = c11.judge_c11(prog_, out)
+        acc.count2('oracle', 'scheduled_runs_with_a_failing_compressed_send')
+        if key is None or key == 'INCONCLUSIVE':
+            return key, detail, sig
+        if key in LOSSY:
+            return 'compressed-message-not-restored:c2s:sent-next-to-a-failed-send-of-another-thread', detail, sig
+        return None, detail, sig
+
+    if 'replay' in case and case['replay'].get('plan') is not None:
+        out = c11.execute(prog, plan={int(k): v for k, v in case['replay']['plan'].items()}, files=sched.WRITE_PATH_FILES)
+        c11.account(prog, out, judge, acc, dict(case, pid='C06'), 'dfs', {})
+        return
+    if case.get('mode') == 'dfs':
+        c11.explore_dfs(prog, 1, judge, acc, dict(case, pid='C06'), case.get('max_runs', 300), 0, 1, files=sched.WRITE_PATH_FILES)
+        return
+    rnd = random.Random(case['rseed'])
+    for _ in range(case['count']):
+        out = c11.execute(prog, rnd=random.Random(rnd.randrange(1 << 30)), switch_prob=case['prob'], files=None)
+        c11.account(prog, out, judge, acc, dict(case, pid='C06'), 'random', None)
+
+
 def run_case(case, acc):
+    if case['kind'] == 'threads':
+        return run_threads(case, acc)
     if case['kind'] == 'c2s':
         return run_c2s(case, acc)
     if case['kind'] == 's2c':
